@@ -304,13 +304,13 @@ func (e *EncryptedISO) decrypterForSector(sector sizeSectors) cipher.BlockMode {
 func tryGetRedumpKey(fsys afero.Fs, requestedPath string) ([]byte, error) {
 	// encryption makes sense only for .iso or .ISO file inside ps3ISO or PS3ISO directory
 	ext := filepath.Ext(requestedPath)
-	if strings.ToLower(ext) != isoExt {
+	if asciiLower(ext) != isoExt {
 		return nil, afero.ErrFileNotFound
 	}
 
 	pathElems := strings.Split(requestedPath, string(filepath.Separator))
 	ps3IsoIdx := slices.IndexFunc(pathElems, func(s string) bool {
-		return strings.ToLower(s) == ps3isoDir
+		return asciiLower(s) == ps3isoDir
 	})
 	if ps3IsoIdx < 0 {
 		return nil, afero.ErrFileNotFound
@@ -359,6 +359,17 @@ func openKeyFile(fsys afero.Fs, path string) (afero.File, error) {
 	}
 
 	return f, nil
+}
+
+// asciiLower converts only ASCII letters: strings.ToLower also maps some non-ASCII letters (i.e. U+0130) to ASCII ones.
+func asciiLower(s string) string {
+	return strings.Map(func(r rune) rune {
+		if r >= 'A' && r <= 'Z' {
+			return r + ('a' - 'A')
+		}
+
+		return r
+	}, s)
 }
 
 func deriveISOKey(targetKey, data1Key []byte) error {
